@@ -89,10 +89,52 @@ impl Automaton for TableDefaults {
     }
 }
 
+/// a table automaton that also overrides `accept_eof`: `eof[s] = Some(e)` means that at the end
+/// of a key in state `s` the match decision is taken in state `e` (`StreamWithState::next_with`
+/// consults the hook only for non-empty keys ending in a final node)
+#[derive(Clone, Debug)]
+pub struct TableEof(pub Table, pub Vec<Option<usize>>);
+
+impl Automaton for TableEof {
+    type State = usize;
+    fn start(&self) -> usize {
+        self.0.start
+    }
+    fn is_match(&self, s: &usize) -> bool {
+        self.0.matching[*s]
+    }
+    fn can_match(&self, s: &usize) -> bool {
+        self.0.can[*s]
+    }
+    fn will_always_match(&self, s: &usize) -> bool {
+        self.0.will[*s]
+    }
+    fn accept(&self, s: &usize, b: u8) -> usize {
+        self.0.delta[*s][self.0.cls(b)]
+    }
+    fn accept_eof(&self, s: &usize) -> Option<usize> {
+        self.1[*s]
+    }
+}
+
+pub fn eof_spec(t: &Table, eof: &[Option<usize>]) -> String {
+    let e: String = eof
+        .iter()
+        .map(|o| match o {
+            Some(d) => char::from(b'0' + *d as u8),
+            None => '-',
+        })
+        .collect();
+    format!("{}:{}", t.spec().replacen("dfa:", "dfe:", 1), e)
+}
+
 #[derive(Clone, Debug)]
 pub enum AutSpec {
     /// `dfd:…`: a table automaton without hint methods (trait defaults)
     DfaD(Table),
+    /// `dfe:…:<eof>`: a table automaton with an `accept_eof` hook (only meaningful at top level:
+    /// the crate's combinators do not forward the hook)
+    DfaE(Table, Vec<Option<usize>>),
     Always,
     Str(Vec<u8>),
     Subseq(Vec<u8>),
@@ -134,9 +176,14 @@ pub fn parse(s: &str) -> Option<AutSpec> {
         return Some(AutSpec::Lev(q, d));
     }
     let defaults = s.starts_with("dfd:");
-    if let Some(r) = s.strip_prefix("dfa:").or_else(|| s.strip_prefix("dfd:")) {
+    let with_eof = s.starts_with("dfe:");
+    if let Some(r) = s
+        .strip_prefix("dfa:")
+        .or_else(|| s.strip_prefix("dfd:"))
+        .or_else(|| s.strip_prefix("dfe:"))
+    {
         let p: Vec<&str> = r.split(':').collect();
-        if p.len() != 7 {
+        if p.len() != if with_eof { 8 } else { 7 } {
             return None;
         }
         let n: usize = p[0].parse().ok()?;
@@ -163,6 +210,16 @@ pub fn parse(s: &str) -> Option<AutSpec> {
             can: bits(p[5]),
             will: bits(p[6]),
         };
+        if with_eof {
+            let eof: Vec<Option<usize>> = p[7]
+                .bytes()
+                .map(|c| if c == b'-' { None } else { Some((c - b'0') as usize) })
+                .collect();
+            if eof.len() != n || eof.iter().any(|e| e.map_or(false, |d| d >= n)) {
+                return None;
+            }
+            return Some(AutSpec::DfaE(t, eof));
+        }
         return Some(if defaults { AutSpec::DfaD(t) } else { AutSpec::Dfa(t) });
     }
     let inner = |pre: &str| -> Option<&str> {
@@ -197,6 +254,7 @@ impl AutSpec {
             AutSpec::Subseq(s) => format!("subseq:{}", crate::util::hex(s)),
             AutSpec::Dfa(t) => t.spec(),
             AutSpec::DfaD(t) => t.spec().replacen("dfa:", "dfd:", 1),
+            AutSpec::DfaE(t, e) => eof_spec(t, e),
             AutSpec::Lev(q, d) => {
                 format!("lev:{}:{}", crate::util::hex(q.as_bytes()), d)
             }
@@ -214,6 +272,7 @@ impl AutSpec {
                 | AutSpec::Subseq(_)
                 | AutSpec::Dfa(_)
                 | AutSpec::DfaD(_)
+                | AutSpec::DfaE(_, _)
                 | AutSpec::Lev(_, _)
         )
     }
@@ -229,6 +288,7 @@ pub trait Erased {
     fn can_match(&self, s: &St) -> bool;
     fn will_always_match(&self, s: &St) -> bool;
     fn accept(&self, s: &St, b: u8) -> St;
+    fn accept_eof(&self, s: &St) -> Option<St>;
     fn show(&self, s: &St) -> String;
 }
 
@@ -253,6 +313,9 @@ where
     fn accept(&self, s: &St, b: u8) -> St {
         Rc::new(self.0.accept(s.downcast_ref::<A::State>().unwrap(), b))
     }
+    fn accept_eof(&self, s: &St) -> Option<St> {
+        self.0.accept_eof(s.downcast_ref::<A::State>().unwrap()).map(|e| Rc::new(e) as St)
+    }
     fn show(&self, s: &St) -> String {
         (self.1)(s.downcast_ref::<A::State>().unwrap())
     }
@@ -276,6 +339,9 @@ impl Automaton for BoxAut {
     }
     fn accept(&self, s: &St, b: u8) -> St {
         self.0.accept(s, b)
+    }
+    fn accept_eof(&self, s: &St) -> Option<St> {
+        self.0.accept_eof(s)
     }
 }
 
@@ -310,6 +376,7 @@ pub fn build(spec: &AutSpec) -> Option<BoxAut> {
             BoxAut(Box::new(Erase(t.clone(), |s: &usize| s.to_string())))
         }
         AutSpec::DfaD(t) => BoxAut(Box::new(Erase(TableDefaults(t.clone()), |s: &usize| s.to_string()))),
+        AutSpec::DfaE(t, e) => BoxAut(Box::new(Erase(TableEof(t.clone(), e.clone()), |s: &usize| s.to_string()))),
         AutSpec::Lev(q, d) => BoxAut(Box::new(Erase(
             Levenshtein::new(q, *d).ok()?,
             |s: &Option<usize>| show_on(s),
@@ -397,7 +464,7 @@ pub fn lang(spec: &AutSpec, w: &[u8]) -> Option<bool> {
         AutSpec::Always => true,
         AutSpec::Str(s) => &s[..] == w,
         AutSpec::Subseq(s) => is_subseq(s, w),
-        AutSpec::Dfa(t) | AutSpec::DfaD(t) => {
+        AutSpec::Dfa(t) | AutSpec::DfaD(t) | AutSpec::DfaE(t, _) => {
             let mut s = t.start;
             for &b in w {
                 s = t.delta[s][t.cls(b)];
@@ -428,6 +495,25 @@ pub fn lang(spec: &AutSpec, w: &[u8]) -> Option<bool> {
 
 /// Are the hints of a table DFA sound (`can` false only if no match is
 /// reachable, `will` true only if every reachable state matches)?
+/// Which keys a stream over `spec` must let through. Equal to `lang` except for a top-level
+/// automaton with an `accept_eof` hook: for a NON-EMPTY key the decision is taken in the hook's
+/// state when the hook fires (the empty key never consults it).
+pub fn lang_stream(spec: &AutSpec, w: &[u8]) -> Option<bool> {
+    if let AutSpec::DfaE(t, eof) = spec {
+        let mut s = t.start;
+        for &b in w {
+            s = t.delta[s][t.cls(b)];
+        }
+        if !w.is_empty() {
+            if let Some(e) = eof[s] {
+                return Some(t.matching[e]);
+            }
+        }
+        return Some(t.matching[s]);
+    }
+    lang(spec, w)
+}
+
 pub fn sound_hint_sets(t: &Table) -> (Vec<bool>, Vec<bool>) {
     // can_reach[s]: a matching state is reachable from s (incl. s itself)
     let n = t.nstates;
